@@ -1,7 +1,8 @@
 CONSTANTS
-  Thresholds = {1, 2, 3}
-  Results = {"ok", "fail", "timeout", "late_ok", "late_fail"}
-  MaxLen = 5
+  Thresholds = {1, 2}
+  Results = {"ok", "fail", "timeout", "late0_ok", "late0_fail", "late1_ok", "late1_fail", "late2_ok", "late2_fail", "late3_ok", "late3_fail"}
+  MaxLen = 4
+  WithB = FALSE
   Defects = {}
 SPECIFICATION Spec
 INVARIANT EmitCases
